@@ -12,7 +12,9 @@ use vh::util::{catch, count_strings_upto, nth_string};
 use vh::{run_main, Ctx, Local, Mismatch, Tri};
 
 const SIGMA: [&str; 6] = ["a", "b", ".", "/", "*", "^"];
-const MODES: [(&str, &str); 6] = [("", ""), ("|", ""), ("", "|"), ("|", "|"), ("||", ""), ("||", "|")];
+// (the two last modes give the left anchor something to bite on: over {a,b,.,/,*,^} alone a
+// `|`-anchored pattern can never match a URL, which always starts with its scheme)
+const MODES: [(&str, &str); 8] = [("", ""), ("|", ""), ("", "|"), ("|", "|"), ("||", ""), ("||", "|"), ("|https://a.b", ""), ("|http://b.a/", "|")];
 
 struct U {
     req: Request,
@@ -484,7 +486,7 @@ fn check(ctx: &Ctx) -> i32 {
     ctx.bound("pattern_body_max_len", n_len);
     ctx.bound("relation_body_max_len", rel_len);
     ctx.bound("alphabet", json!(SIGMA));
-    ctx.bound("anchor_modes", MODES.len());
+    ctx.bound("anchor_modes", json!(MODES));
     ctx.bound("urls", urls.len());
     ctx.bound("curated_full_regexes", REGEXES.len());
     let bodies = count_strings_upto(SIGMA.len() as u64, n_len) - 1; // skip the empty body
@@ -513,7 +515,7 @@ fn check(ctx: &Ctx) -> i32 {
     });
     ctx.finish(
         "model_checking",
-        "every pattern body of length 1..=n over {a,b,.,/,*,^} x 6 anchor modes, each against every URL of the universe (2 schemes x 7 hosts with repeated/prefix/suffix labels x optional userinfo x all paths of length <=3 over {a,b,/,.} + separators); a case is non-trivial when the real matcher reports a match; states = rules parsed, transitions = (rule,url) evaluations, traces_validated = evaluations compared with the reference or a relation",
+        "every pattern body of length 1..=n over {a,b,.,/,*,^} x 8 anchor modes (none, |p, p|, |p|, ||p, ||p|, |https://a.b+p, |http://b.a/+p|), each against every URL of the universe (2 schemes x 7 hosts with repeated/prefix/suffix labels x optional userinfo x all paths of length <=3 over {a,b,/,.} + separators); a case is non-trivial when the real matcher reports a match; states = rules parsed, transitions = (rule,url) evaluations, traces_validated = evaluations compared with the reference or a relation",
         &[
             "regex crate is the oracle for full-regex rules",
             "URLs are ASCII, lower-case host, non-empty path (the property's domain)",
